@@ -365,10 +365,7 @@ theorem step_sim (hv : Sim I J R) (m : Mode) (e : Endian) (valid : Bytes → Boo
     · exact ⟨rfl, h⟩
     · rename_i b b'
       refine runQ_sim hv h i (fun s t hst => ?_)
-      have v1 := hv.view s t hst
-      have v2 := hv.view b b' hr
-      simp only [Cur.toView, View.mk.injEq] at v1 v2
-      rw [v1.2.2, v2.2.2, hv.offsetFrom m s t b b' hst hr]
+      rw [hv.offsetFrom m s t b b' hst hr]
   | offId i =>
     have hr := h.rs i
     simp only [step]
